@@ -34,6 +34,8 @@ Lemma flush_rest_pinned ty a b now :
   flush_is_addr_type ty = ((ty =? 1) || (ty =? 28)) /\ flush_same_intf a b = (a =? b)
   /\ flush_new_expire now = now + 1000.
 Proof. repeat split; reflexivity. Qed.
+Lemma revived_guard_pinned o n : revived_guard o n = ((o <=? 1) && (1 <? n)).
+Proof. reflexivity. Qed.
 Lemma found_ttl_guard_pinned ttl : found_ttl_guard ttl = (1 <? ttl).
 Proof. reflexivity. Qed.
 Lemma followup_pinned n :
